@@ -179,7 +179,9 @@ def compare_cfg(name, feats, base, got, m):
         return "a table rebuilt with its entries inserted in the opposite order is != the original under %s" % name
     if "t_po" in feats and m.get("expect_order") and got.startswith("ok ") and field(got, "order") != m["expect_order"]:
         return "under %s toml::Table does not iterate in document order: %s, expected %s" % (name, field(got, "order"), m["expect_order"])
-    for f in ("tree", "print", "sorted", "order", "eq"):
+    if field(got, "mutspans") not in (None, "0"):
+        return "after into_mut %s keys / items still refer to the source (span or unowned spelling) under %s" % (field(got, "mutspans"), name)
+    for f in ("tree", "print", "sorted", "order", "eq", "mutspans"):
         a, b = field(base, f), field(got, f)
         if a is None or b is None or a == "skip" or b == "skip":
             continue
@@ -220,6 +222,8 @@ def gen_cases(rng, tier):
                 if w and not why:
                     why = w
             # without preserve_order the iteration order of toml::Table is the sorted order
+            if field(base[i], "mutspans") not in (None, "0"):
+                why = why or "default configuration: after into_mut %s keys / items still refer to the source" % field(base[i], "mutspans")
             if field(base[i], "eq") == "false":
                 why = why or "default configuration: a table rebuilt in the opposite insertion order is != the original"
             if base[i].startswith("ok sorted=") and field(base[i], "sorted") != field(base[i], "order"):
